@@ -2188,21 +2188,23 @@ impl SubRule {
             let back_state = *state_index;
             let back_alphas = self.alphas.borrow().clone();
             let back_varlbs = self.variables.borrow().clone();
+            let back_captures = captures.len();
 
             let mut m = true;
             while *state_index < states.len() {
                 #[cfg(feature = "verif")] crate::verif::tick(121);
+                // NOTE: input_match_item advances state_index itself on a match
                 if !self.input_match_item(captures, pos, state_index, word, states)? {
                     m = false;
                     break;
                 }
-                *state_index += 1;
             }
             if m {
                 return Ok(true)
             }
             *state_index = back_state;
             *pos = back_pos;
+            captures.truncate(back_captures);
             *self.alphas.borrow_mut() = back_alphas;
             *self.variables.borrow_mut() = back_varlbs;
             pos.increment(word);
